@@ -1,5 +1,5 @@
 #!/usr/bin/env python3
-"""seeded_rerun.py [--all-checks] [--round NAME] <seeded-id>...     (e.g. C01-m3; `wave1`, `wave2`, `wave3`, `everything` expand)
+"""seeded_rerun.py [--all-checks] [--round NAME] <seeded-id>...     (e.g. C01-m3; `wave1` … `wave4`, `everything` expand)
 Re-run the registered quick checks against seeded changes already kept under /verif/seeded/<id>/ (patch.diff there):
 apply the patch to /repo, run the property's own check (default) or every claimed check (--all-checks), undo the patch,
 and append the outcome to seeded/<id>/meta.json (the previous outcome moves into `history`).
@@ -20,6 +20,7 @@ for a in args:
     if a == "wave1": ids += [i for i in every if i.endswith(("-m1", "-m2"))]
     elif a == "wave2": ids += [i for i in every if i.endswith(("-m3", "-m4"))]
     elif a == "wave3": ids += [i for i in every if i.endswith(("-m5", "-m6"))]
+    elif a == "wave4": ids += [i for i in every if i.endswith("-m7")]
     elif a == "benign": ids += [i for i in every if "-b" in i]
     elif a == "everything": ids += every
     else: ids.append(a)
